@@ -715,6 +715,9 @@ func c08(r *Report) {
 					return one && inc
 				})
 			}
+			if !ok && len(cont) == 1 {
+				ok, _ = contLoopBySimulation(cont[0])
+			}
 			r.Decide("path", fmt.Sprintf("(*M/h2.%s).send writes chunks 1..n as CONTINUATION frames in order", tn), ok, "loop from 1 by 1 over chunks", "continuation chunks are skipped, repeated or reordered", send.Pos())
 		}
 	})
